@@ -197,6 +197,11 @@ def satCacheLayer (E : Env) : Layer := fun _self sup =>
     simplify := do
       let cs ← sup.simplify
       if !cs.isEmpty && cs.any (·.isFalse) then M.modifyFe fun fe => { fe with cachedSat := some false }
+      -- the cached core is dropped when simplification has rewritten one of the constraints it names
+      M.modifyFe fun fe =>
+        match fe.cachedCore with
+        | some core => if core.any (fun c => !(cs.any fun c' => c'.id == c.id)) then { fe with cachedCore := none } else fe
+        | none => fe
       pure cs
     satisfiable := fun extra => do
       let fe ← M.getFe
